@@ -17,7 +17,8 @@ import (
 func VerifC22Even() {
 	rows := nd.Choose("rows", 1, nd.Param("R", 2))
 	cols := nd.Choose("cols", 1, nd.Param("C", 3))
-	n := nd.Choose("cells", 1, rows*cols)
+	// more cells than rows x columns make the grid grow along its direction
+	n := nd.Choose("cells", 1, rows*cols+nd.Param("OVER", 0))
 	rowFirst := nd.Bool("rowfirst")
 	hgap := []int{0, 7, 40}[nd.Choose("hgap", 0, 2)]
 	vgap := []int{0, 12, 40}[nd.Choose("vgap", 0, 2)]
@@ -78,4 +79,104 @@ func VerifC22Even() {
 			}
 		}
 	}
+}
+
+// VerifC22Dynamic: a grid with only rows (or only columns) given fills its
+// lines in declaration order; cells of a line share top and height (left and
+// width), neighbours in a line are separated by exactly the gap, lines by
+// exactly the other gap, nothing overlaps and every cell lies inside the grid.
+// Cell sizes are drawn from a menu (the search for the best cut uses standard
+// deviations, which are outside the solver's reach with symbolic sizes).
+func VerifC22Dynamic() {
+	lines := nd.Choose("lines", 1, nd.Param("L", 2))
+	n := nd.Choose("cells", 1, nd.Param("N", 3))
+	rowDir := nd.Bool("rows")
+	hgap := []int{0, 7, 40}[nd.Choose("hgap", 0, nd.Param("GAPS", 3)-1)]
+	vgap := []int{12, 0, 40}[nd.Choose("vgap", 0, nd.Param("GAPS", 3)-1)]
+	var sb strings.Builder
+	sb.WriteString("g: {\n")
+	if rowDir {
+		sb.WriteString(" grid-rows: " + strconv.Itoa(lines) + "\n")
+	} else {
+		sb.WriteString(" grid-columns: " + strconv.Itoa(lines) + "\n")
+	}
+	sb.WriteString(" horizontal-gap: " + strconv.Itoa(hgap) + "\n vertical-gap: " + strconv.Itoa(vgap) + "\n")
+	for i := 0; i < n; i++ {
+		sb.WriteString(" c" + strconv.Itoa(i) + "\n")
+	}
+	sb.WriteString("}\n")
+	g, _, err := d2compiler.Compile("index.d2", strings.NewReader(sb.String()), nil)
+	nd.Assert(err == nil, "the grid compiles")
+	var grid *d2graph.Object
+	for _, o := range g.Objects {
+		if o.AbsID() == "g" {
+			grid = o
+		}
+	}
+	nd.Assert(grid != nil && len(grid.ChildrenArray) == n, "the grid has its cells")
+	grid.Box = geo.NewBox(geo.NewPoint(0, 0), 0, 0)
+	ws := []float64{40, 100, 170}
+	hs := []float64{30, 90, 66}
+	// the size along the direction of a line comes from the menu (it decides the cuts);
+	// the size across it is symbolic (it only enters sums and maxima)
+	for i, c := range grid.ChildrenArray {
+		if nd.Param("SYM", 1) == 0 {
+			c.Box = geo.NewBox(geo.NewPoint(0, 0), ws[nd.Choose("w"+strconv.Itoa(i), 0, 2)], hs[nd.Choose("h"+strconv.Itoa(i), 0, 2)])
+		} else if rowDir {
+			c.Box = geo.NewBox(geo.NewPoint(0, 0), ws[nd.Choose("w"+strconv.Itoa(i), 0, 2)], nd.Dyadic("h"+strconv.Itoa(i), 8, 2048, 1))
+		} else {
+			c.Box = geo.NewBox(geo.NewPoint(0, 0), nd.Dyadic("w"+strconv.Itoa(i), 8, 2048, 1), hs[nd.Choose("h"+strconv.Itoa(i), 0, 2)])
+		}
+	}
+	gd, err := layoutGrid(g, grid)
+	nd.Assert(err == nil && gd != nil, "layout succeeds")
+	nd.Cover("laid-out")
+	const eps = 1e-6
+	near := func(a, b float64) bool { return a-b <= eps && b-a <= eps }
+	cells := grid.ChildrenArray
+	used := 1
+	for i, a := range cells {
+		if rowDir {
+			nd.Assert(a.TopLeft.X >= -eps && a.TopLeft.X+a.Width <= gd.width+eps, "a cell lies outside the grid")
+			nd.Assert(nd.And(a.TopLeft.Y >= 0, a.TopLeft.Y+a.Height <= gd.height), "a cell lies outside the grid")
+		} else {
+			nd.Assert(a.TopLeft.Y >= -eps && a.TopLeft.Y+a.Height <= gd.height+eps, "a cell lies outside the grid")
+			nd.Assert(nd.And(a.TopLeft.X >= 0, a.TopLeft.X+a.Width <= gd.width), "a cell lies outside the grid")
+		}
+		for j := i + 1; j < len(cells); j++ {
+			b := cells[j]
+			if rowDir {
+				nd.Assert(nd.Or(a.TopLeft.X+a.Width <= b.TopLeft.X+eps, b.TopLeft.X+b.Width <= a.TopLeft.X+eps, a.TopLeft.Y+a.Height <= b.TopLeft.Y, b.TopLeft.Y+b.Height <= a.TopLeft.Y), "two cells overlap")
+			} else {
+				nd.Assert(nd.Or(a.TopLeft.Y+a.Height <= b.TopLeft.Y+eps, b.TopLeft.Y+b.Height <= a.TopLeft.Y+eps, a.TopLeft.X+a.Width <= b.TopLeft.X, b.TopLeft.X+b.Width <= a.TopLeft.X), "two cells overlap")
+			}
+		}
+		if i+1 == len(cells) {
+			break
+		}
+		b := cells[i+1]
+		if rowDir {
+			// x and widths are concrete, y and heights symbolic and exact
+			if b.TopLeft.X > eps {
+				nd.Assert(nd.And(a.TopLeft.Y == b.TopLeft.Y, a.Height == b.Height), "cells of a row have the same top and height")
+				nd.Assert(near(b.TopLeft.X, a.TopLeft.X+a.Width+float64(hgap)), "neighbours in a row are separated by exactly the horizontal gap, in declaration order")
+			} else {
+				used++
+				nd.Assert(b.TopLeft.Y == a.TopLeft.Y+a.Height+float64(vgap), "the next row starts at the left, exactly the vertical gap below the previous row")
+			}
+		} else {
+			if b.TopLeft.Y > eps {
+				nd.Assert(nd.And(a.TopLeft.X == b.TopLeft.X, a.Width == b.Width), "cells of a column have the same left edge and width")
+				nd.Assert(near(b.TopLeft.Y, a.TopLeft.Y+a.Height+float64(vgap)), "neighbours in a column are separated by exactly the vertical gap, in declaration order")
+			} else {
+				used++
+				nd.Assert(b.TopLeft.X == a.TopLeft.X+a.Width+float64(hgap), "the next column starts at the top, exactly the horizontal gap right of the previous column")
+			}
+		}
+	}
+	want := lines
+	if n < want {
+		want = n
+	}
+	nd.Assert(used == want, "the cells are spread over the requested number of rows or columns")
 }
